@@ -1,10 +1,24 @@
 """Shared by harness/c01.py and harness/c05.py: structured generator of networks / session sets /
 schedulers, the run of the REAL acnportal Simulator with recording hooks (a ChargingNetwork subclass
 overriding post_charging_update, a recording BaseAlgorithm), and the emission of Coq terms for
-Model/SimIface.v."""
+Model/SimIface.v.
+
+Scenario families (inp["family"]); every family is compared with the model of the *input alone*:
+  plain     one fresh network / queue / scheduler / simulator
+  reuse     inp["prelude"] is first run to completion on the SAME ChargingNetwork, EventQueue and
+            scheduler objects, which are then refilled / reconfigured and given to a new Simulator
+  twin      inp["twin"] has the same station ids and constraint names but other values; both simulators
+            are built first, and the twin is run completely INSIDE one scheduler call of the main one
+  resume    the scheduler raises (Exception or BaseException subclass) at chosen invocations and run()
+            is called again on the same objects until it returns
+  netupdate constraints are changed in place (update/add/remove_constraint) at the end of chosen
+            scheduler calls; later views must show the new description
+All recorded identifiers are mapped back to the numbers of the input (Names), whatever id style is used."""
 import copy
 import fractions
 import itertools
+import math
+import random
 from datetime import datetime, timedelta
 
 from harness.core import q, z, coq_list, coq_bool, coq_opt, coq_str
@@ -159,7 +173,10 @@ def make_malformed(rng, net, sessions, how):
     return sessions
 
 
-def gen_input(rng, tier="quick", malformed=None):
+ID_STYLES = ["pad", "pad", "dash", "num", "mixed", "falsy"]
+
+
+def gen_input(rng, tier="quick", malformed=None, family=None, shared_ids=False):
     net = gen_network(rng)
     horizon = 36 if tier == "quick" else 60
     sessions = gen_sessions(rng, net, horizon=horizon)
@@ -176,39 +193,144 @@ def gen_input(rng, tier="quick", malformed=None):
         for st in net["stations"]:
             if st["kind"][0] == "D":
                 st["kind"] = ("C", 0, st["kind"][2])
-    return dict(net=net, sessions=sessions, recomputes=recomputes,
-                max_recompute=rng.choice([None, 1, 2, 5]), period=rng.choice([1, 5, 15]),
-                sched=dict(kind=sched_kind, seed=rng.randrange(10 ** 9)), malformed=malformed)
+    inp = dict(net=net, sessions=sessions, recomputes=recomputes,
+               # 0: "recompute every period"; periods that do not divide 60 and fractional periods
+               max_recompute=rng.choice([None, 1, 2, 5, None, 1, 2, 5, 0, 3]),
+               period=rng.choice([1, 5, 15, 1, 5, 15, 7, 2.5, 0.5]),
+               sched=dict(kind=sched_kind, seed=rng.randrange(10 ** 9)), malformed=malformed,
+               idstyle=rng.choice(ID_STYLES), family=family or "plain",
+               np_types=rng.random() < 0.3)
+    if shared_ids and not malformed and len({s["station"] for s in sessions}) >= 2:
+        # unusual but legal: one session id used on two different stations (ids numbered per station,
+        # merged batches), preferably by sessions that are connected at the same time
+        pairs = [(a, b) for a in sessions for b in sessions if a["station"] != b["station"] and a["sid"] < b["sid"]]
+        live = [(a, b) for a, b in pairs if a["arrival"] < b["departure"] and b["arrival"] < a["departure"]
+                and a["arrival"] != b["arrival"]]
+        for _ in range(rng.choice([1, 1, 2])):
+            a, b = rng.choice(live or pairs)
+            if len({(x["sid"], x["station"]) for x in sessions} - {(b["sid"], b["station"])} | {(a["sid"], b["station"])}) == len(sessions):
+                b["sid"] = a["sid"]
+        inp["shared_ids"] = True
+    if not malformed and sessions and rng.random() < 0.06:
+        # remaining demand exactly on / one ulp around the 1e-3 activity threshold (monitors only: the
+        # exact-arithmetic model is skipped within 1e-7 of a float decision threshold)
+        victim = rng.choice(sessions)
+        victim["req"] = rng.choice([1e-3, math.nextafter(1e-3, 1), math.nextafter(1e-3, 0)])
+        victim["cap"], victim["init"] = 10.0, 0.0
+    if family == "reuse":
+        pre = gen_input(rng, tier)
+        pre["net"] = copy.deepcopy(net)
+        pre["idstyle"] = inp["idstyle"]
+        pre["sessions"] = gen_sessions(rng, net, horizon=horizon // 2)
+        pre["recomputes"] = gen_recomputes(rng, pre["sessions"], horizon // 2)
+        pre["sched"]["kind"] = rng.choice(["zero", "scripted", "uncontrolled"])
+        pre["family"] = "plain"
+        inp["prelude"] = pre
+    elif family == "twin":
+        tw = gen_input(rng, tier)
+        tnet = copy.deepcopy(net)
+        for st in tnet["stations"]:            # same ids, other values
+            st["voltage"] = rng.choice([v for v in [120, 208, 240, 277] if v != st["voltage"]])
+            st["phase"] = rng.choice([p for p in [0, 30, -30, 150, 90] if p != st["phase"]])
+            if st["kind"][0] in "CD":
+                st["kind"] = (st["kind"][0], st["kind"][1], st["kind"][2] + rng.choice([8, 16]))
+            else:
+                st["kind"] = ("F", tuple(rng.choice([[0, 8, 16, 24, 32, 48], [10, 20], [6, 12.5, 30, 31]])))
+        for c in tnet["constraints"]:          # same names, other limits / coefficients
+            c["limit"] = c["limit"] / 2 + 3
+            c["coeffs"] = {m: -v for m, v in c["coeffs"].items()}
+        tw["net"] = tnet
+        tw["idstyle"] = inp["idstyle"]
+        tw["sessions"] = gen_sessions(rng, tnet, horizon=horizon // 2, n_max=10)
+        tw["recomputes"] = gen_recomputes(rng, tw["sessions"], horizon // 2)
+        if tw["sched"]["kind"] == "fcfs":
+            tw["sched"]["kind"] = "uncontrolled"
+        tw["family"] = "plain"
+        inp["twin"] = tw
+        inp["twin_at"] = rng.choice([0, 1, 2, 3])
+    elif family == "resume":
+        inp["raise_at"] = sorted(set(rng.choice([0, 0, 1, 2, 3, 5, 8, 13]) for _ in range(rng.randint(1, 3))))
+        inp["raise_kind"] = rng.choice(["Exception", "BaseException"])
+    elif family == "netupdate":
+        ups = []
+        cur = [dict(c) for c in net["constraints"]]
+        next_num = max([c["num"] for c in cur] + [0]) + 1
+        n = len(net["stations"])
+        for k in sorted(set(rng.choice([0, 1, 2, 3, 5]) for _ in range(rng.randint(1, 3)))):
+            how = rng.choice(["limit", "limit", "add", "remove"]) if cur else "add"
+            if how == "limit":                # update_constraint under the same name: remove + append
+                j = rng.randrange(len(cur))
+                c = dict(cur.pop(j))
+                c["limit"] = rng.choice([c["limit"] / 2, c["limit"] + 7.5, 33])
+                cur.append(c)
+                ups.append(dict(at=k, how="limit", num=c["num"], coeffs=c["coeffs"], limit=c["limit"]))
+            elif how == "add":
+                members = rng.sample(range(n), rng.randint(1, n))
+                c = dict(num=next_num, coeffs={m: rng.choice([1, -1, 0.5]) for m in sorted(members)},
+                         limit=rng.choice([500, 80.5]))
+                next_num += 1
+                cur.append(c)
+                ups.append(dict(at=k, how="add", num=c["num"], coeffs=c["coeffs"], limit=c["limit"]))
+            else:
+                j = rng.randrange(len(cur))
+                c = cur.pop(j)
+                ups.append(dict(at=k, how="remove", num=c["num"]))
+        inp["net_updates"] = ups
+    return inp
 
 
 # ---------------------------------------------------------------------------------------------
-# building the real objects
+# identifiers
 # ---------------------------------------------------------------------------------------------
-def st_name(num):
-    return "ST-%03d" % num
+class Names:
+    """station / session / constraint numbers of an input  <->  the identifiers given to acnportal.
+    Styles: zero-padded, `S-9 S-10 S-11` (lexicographic != numeric), numeric-looking, mixed case, and
+    one with the falsy ids "" and "0"."""
+
+    def __init__(self, inp):
+        style = inp.get("idstyle", "pad")
+        st_nums = [st["num"] for st in inp["net"]["stations"]]
+        sess_nums = []
+        for key in ("sessions",):
+            sess_nums += [s["sid"] for s in inp[key]]
+        c_nums = [c["num"] for c in inp["net"]["constraints"]] + [u["num"] for u in inp.get("net_updates", [])]
+        self.st, self.sess, self.cid = {}, {}, {}
+        for i, n in enumerate(st_nums):
+            self.st[n] = {"pad": "ST-%03d" % n, "dash": "S-%d" % n, "num": "%d" % n,
+                          "mixed": ("a%d", "B%d", "Ab%d")[i % 3] % n,
+                          "falsy": "" if i == 0 else ("0" if i == 1 else "st%d" % n)}[style]
+        for i, n in enumerate(dict.fromkeys(sess_nums)):
+            self.sess[n] = {"pad": "sess-%d" % n, "dash": "%d" % n, "num": "s%d" % n,
+                            "mixed": ("X%d", "x%dy")[i % 2] % n,
+                            "falsy": "" if i == 0 else ("0" if i == 1 else "e%d" % n)}[style]
+        for i, n in enumerate(dict.fromkeys(c_nums)):
+            self.cid[n] = {"pad": "C%d" % n, "dash": "C-%d" % n, "num": "%d" % n, "mixed": ("lim%d", "LIM%d")[i % 2] % n,
+                           "falsy": "" if i == 0 else "c%d" % n}[style]
+        self.st_inv = {v: k for k, v in self.st.items()}
+        self.sess_inv = {v: k for k, v in self.sess.items()}
+        self.cid_inv = {v: k for k, v in self.cid.items()}
+
+    def station(self, num):            # unknown station of the malformed stream
+        return self.st.get(num, "nowhere-%d" % num)
+
+    def st_num(self, name):
+        return self.st_inv.get(name, -999)
+
+    def sess_num(self, name):
+        return -1 if name is None else self.sess_inv.get(name, -999)
+
+    def cid_num(self, name):
+        return self.cid_inv.get(name, -999)
 
 
-def sess_name(num):
-    return "sess-%d" % num
-
-
-def make_evse(st):
+def make_evse(st, name):
     from acnportal.acnsim.models import EVSE, DeadbandEVSE, FiniteRatesEVSE
     kind = st["kind"]
-    name = st_name(st["num"])
     if kind[0] == "C":
         return EVSE(name, max_rate=kind[2], min_rate=kind[1])
     if kind[0] == "D":
         return DeadbandEVSE(name, deadband_end=kind[1], max_rate=kind[2])
     return FiniteRatesEVSE(name, list(kind[1]))
-
-
-def allowable(kind):
-    if kind[0] == "C":
-        return None
-    if kind[0] == "D":
-        return None
-    return sorted(set(kind[1]) | {0})
 
 
 def random_pilot(rng, kind):
@@ -223,134 +345,264 @@ class RunawayLoop(Exception):
     """raised by the recording network when run() is still iterating long after the last event"""
 
 
-class Recorder:
-    """state shared between the recording network and the recording scheduler"""
+class Boom(Exception):
+    """the scripted scheduler failure of the resume family"""
 
-    def __init__(self):
+
+class HardStop(BaseException):
+    """... as a BaseException subclass (like KeyboardInterrupt)"""
+
+
+class Recorder:
+    """what the recording network and the recording scheduler write down for ONE simulation"""
+
+    def __init__(self, inp, nm, mutate=False):
+        self.inp, self.nm, self.mutate = inp, nm, mutate
         self.sim = None
-        self.occ = []          # (period, [session id or None per station], len(event_history))
+        self.limit = max([0] + [max(s["arrival"], s["departure"]) for s in inp["sessions"]] + list(inp["recomputes"])) + 60
+        self.occ = []          # (period, [session number or -1 per station], len(event_history))
         self.calls = []
         self.min_margin = 1.0  # min distance of a connected EV's remaining demand from the 1e-3 threshold
+        self.flags = []        # violations noticed while recording (aliasing, arguments mutated, accessors)
+        self.raised = set()
+        self.n_raised = 0
+        self.held = []         # (description, object, digest function, digest at the time)
+        self.kept_schedule = None
+        self.srng = random.Random(inp["sched"]["seed"])
+        self.constraints = [dict(c) for c in inp["net"]["constraints"]]   # the harness's own book-keeping
+        self.nested = None     # callable run inside the scheduler call number inp["twin_at"]
+        self.nested_done = False
+
+    def flag(self, what):
+        if what not in self.flags:
+            self.flags.append(what)
 
 
-def build(inp, rec, mutate=False):
-    """construct network / events / scheduler for one input; returns (sim, sessions_by_name)"""
-    import random
-    from acnportal.acnsim import Simulator
+def _acn():
+    import acnportal.acnsim as acnsim                       # noqa
     from acnportal.acnsim.network import ChargingNetwork, Current
     from acnportal.acnsim.events import EventQueue, PluginEvent, RecomputeEvent
     from acnportal.acnsim.models import EV, Battery
     from acnportal.algorithms import BaseAlgorithm, UncontrolledCharging, SortedSchedulingAlgo, first_come_first_served
+    return locals()
 
-    limit = max([0] + [max(s["arrival"], s["departure"]) for s in inp["sessions"]] + list(inp["recomputes"])) + 60
 
-    class RecNet(ChargingNetwork):
+_CLASSES = {}
+
+
+def classes():
+    """RecNet / RecAlgo are created once per process (they subclass acnportal classes)"""
+    if _CLASSES:
+        return _CLASSES
+    A = _acn()
+
+    class RecNet(A["ChargingNetwork"]):
+        rec = None
+
         def post_charging_update(self):      # the designed hook
+            rec = self.rec
             sim = rec.sim
-            rec.occ.append((sim._iteration,
-                            [evse.ev.session_id if evse.ev is not None else None for evse in self._EVSEs.values()],
+            nm = rec.nm
+            evses = list(self._EVSEs.values())
+            rec.occ.append((int(sim._iteration), [nm.sess_num(e.ev.session_id) if e.ev is not None else -1 for e in evses],
                             len(sim.event_history)))
-            if sim._iteration > limit:       # run() must end one period after the last event (C01)
+            # other public entry points that report who is connected
+            for sid_, e in zip(self.station_ids, evses):
+                if self.get_ev(sid_) is not e.ev:
+                    rec.flag("network.get_ev(%r) is not the EV connected to the EVSE" % (sid_,))
+            want = [e.station_id for e in evses if e.ev is not None and (e.ev.requested_energy - e.ev.energy_delivered) > 1e-3]
+            if list(self.active_station_ids) != want:
+                rec.flag("network.active_station_ids %r, stations with an unsatisfied EV %r" % (self.active_station_ids, want))
+            if sim._iteration > rec.limit:       # run() must end one period after the last event (C01)
                 raise RunawayLoop("still running at period %d" % sim._iteration)
 
-    net = RecNet()
-    for st in inp["net"]["stations"]:
-        net.register_evse(make_evse(st), st["voltage"], st["phase"])
-    names = [st_name(st["num"]) for st in inp["net"]["stations"]]
-    for c in inp["net"]["constraints"]:
-        net.add_constraint(Current({names[i]: v for i, v in c["coeffs"].items()}), c["limit"], name="C%d" % c["num"])
+    class RecAlgo(A["BaseAlgorithm"]):
+        rec = None
+        inner = None
 
-    events = []
-    for s in inp["sessions"]:
-        ev = EV(s["arrival"], s["departure"], s["req"], st_name(s["station"]), sess_name(s["sid"]),
-                Battery(s["cap"], s["init"], s["maxp"]), estimated_departure=s["est"])
-        events.append(PluginEvent(s["arrival"], ev))
-    for t in inp["recomputes"]:
-        events.append(RecomputeEvent(t))
-
-    kind = inp["sched"]["kind"]
-    srng = random.Random(inp["sched"]["seed"])
-    inner = None
-    if kind == "uncontrolled":
-        inner = UncontrolledCharging()
-    elif kind == "fcfs":
-        inner = SortedSchedulingAlgo(first_come_first_served)
-    stations = inp["net"]["stations"]
-
-    class RecAlgo(BaseAlgorithm):
-        def __init__(self):
-            super().__init__()
-            self.max_recompute = inp["max_recompute"]
+        def configure(self, rec):
+            self.rec = rec
+            self.max_recompute = rec.inp["max_recompute"]
+            kind = rec.inp["sched"]["kind"]
+            self.inner = None
+            if kind == "uncontrolled":
+                self.inner = A["UncontrolledCharging"]()
+            elif kind == "fcfs":
+                self.inner = A["SortedSchedulingAlgo"](A["first_come_first_served"])
 
         def register_interface(self, interface):
             super().register_interface(interface)
-            if inner is not None:
-                inner.register_interface(interface)
+            if self.inner is not None:
+                self.inner.register_interface(interface)
 
         def schedule(self, active_sessions):
-            iface = self.interface
-            sim = rec.sim
-            # ---- ground truth, read directly from the simulator's objects (not through the interface)
-            truth = []
-            for idx, evse in enumerate(sim.network._EVSEs.values()):
-                ev = evse.ev
-                if ev is not None:
-                    rd = ev.requested_energy - ev.energy_delivered
-                    rec.min_margin = min(rec.min_margin, abs(rd - 1e-3))
-                    truth.append(dict(idx=idx, sid=ev.session_id, energy=ev.energy_delivered, rate=ev.current_charging_rate,
-                                      arrival=ev.arrival, active=rd > 1e-3))
-            # ---- what the interface shows
-            info = iface.infrastructure_info()
-            cons = iface.get_constraints()
-            view = dict(
-                t=iface.current_time, dt=iface.current_datetime, n_hist=len(sim.event_history),
-                sessions=[dict(station=s.station_id, sid=s.session_id, req=s.requested_energy, deliv=s.energy_delivered,
-                               arr=s.arrival, dep=s.departure, est=s.estimated_departure, time=s.current_time,
-                               remaining=s.remaining_time, offset=s.arrival_offset,
-                               n_min=len(s.min_rates), n_max=len(s.max_rates)) for s in active_sessions],
-                last_pilots=list(iface.last_applied_pilot_signals.items()),
-                last_rates=list(iface.last_actual_charging_rate.items()),
-                peak=iface.get_prev_peak(),
-                infra=dict(ids=list(info.station_ids), voltages=[float(x) for x in info.voltages],
-                           phases=[float(x) for x in info.phases], max=[float(x) for x in info.max_pilot],
-                           min=[float(x) for x in info.min_pilot],
-                           allow=[[float(y) for y in a] for a in info.allowable_pilots],
-                           cont=[bool(x) for x in info.is_continuous],
-                           cmat=[[float(y) for y in row] for row in info.constraint_matrix],
-                           limits=[float(x) for x in info.constraint_limits], cids=list(info.constraint_ids)),
-                constraints=dict(cmat=[[float(y) for y in row] for row in cons.constraint_matrix],
-                                 limits=[float(x) for x in cons.magnitudes], cids=list(cons.constraint_index),
-                                 ids=list(cons.evse_index)),
-                per_station=[(iface.allowable_pilot_signals(n), float(iface.max_pilot_signal(n)), float(iface.min_pilot_signal(n)),
-                              float(iface.evse_voltage(n)), float(iface.evse_phase(n))) for n in info.station_ids],
-                truth=truth,
-                truth_pilots=[float(sim.pilot_signals[i, sim._iteration - 1]) if sim._iteration >= 1 else 0.0
-                              for i in range(len(names))],
-                truth_peak=float(sim.peak), period=iface.period, max_recompute=iface.max_recompute_time)
-            # ---- the schedule
-            if kind == "empty":
-                sched = {}
-            elif kind == "zero":
-                L = srng.choice([1, 2, 5])
-                sched = {s.station_id: [0] * L for s in active_sessions}
-            elif kind == "scripted":
-                L = srng.choice([1, 1, 2, 3, 6])
-                chosen = [st for st in stations if srng.random() < 0.7]
-                sched = {st_name(st["num"]): [random_pilot(srng, st["kind"]) for _ in range(L)] for st in chosen}
-            else:
-                sched = inner.schedule(active_sessions)
-            sched = {k: [float(x) for x in v] for k, v in sched.items()}
-            view["schedule"] = copy.deepcopy(sched)
-            rec.calls.append(view)
-            if mutate:
-                mutate_everything(iface, active_sessions, info, cons)
-            return sched
+            return record_and_schedule(self, active_sessions)
 
-    alg = RecAlgo()
-    from acnportal.acnsim.events import EventQueue as EQ
-    sim = Simulator(net, alg, EQ(events), START, period=inp["period"], verbose=False)
-    rec.sim = sim
-    return sim
+    _CLASSES.update(A)
+    _CLASSES.update(RecNet=RecNet, RecAlgo=RecAlgo)
+    return _CLASSES
+
+
+def infra_digest(info, nm):
+    return dict(ids=[nm.st_num(x) for x in info.station_ids], voltages=[float(x) for x in info.voltages],
+                phases=[float(x) for x in info.phases], max=[float(x) for x in info.max_pilot],
+                min=[float(x) for x in info.min_pilot],
+                allow=[[float(y) for y in a] for a in info.allowable_pilots],
+                cont=[bool(x) for x in info.is_continuous],
+                cmat=[[float(y) for y in row] for row in info.constraint_matrix],
+                limits=[float(x) for x in info.constraint_limits], cids=[nm.cid_num(x) for x in info.constraint_ids])
+
+
+def sessions_digest(active_sessions, nm):
+    return [dict(station=nm.st_num(s.station_id), sid=nm.sess_num(s.session_id), req=float(s.requested_energy),
+                 deliv=float(s.energy_delivered), arr=int(s.arrival), dep=int(s.departure), est=int(s.estimated_departure),
+                 time=int(s.current_time), remaining=int(s.remaining_time), offset=int(s.arrival_offset),
+                 n_min=len(s.min_rates), n_max=len(s.max_rates)) for s in active_sessions]
+
+
+def typed(srng, x, np_types):
+    """the same number as a python int / float / numpy scalar (what real algorithms return varies)"""
+    import numpy as np
+    if not np_types:
+        return x
+    c = srng.randrange(5)
+    if float(x) == int(x) and c == 0:
+        return int(x)
+    if float(x) == int(x) and c == 1:
+        return np.int64(int(x))
+    if c == 2:
+        return np.float64(x)
+    if c == 3 and float(np.float32(x)) == float(x):
+        return np.float32(x)
+    return float(x)
+
+
+def record_and_schedule(alg, active_sessions):
+    import numpy as np
+    import warnings
+    rec = alg.rec
+    inp, nm, sim, srng = rec.inp, rec.nm, rec.sim, rec.srng
+    iface = alg.interface
+    k = len(rec.calls)
+    # ---- resume family: fail before anything is recorded
+    if k in inp.get("raise_at", ()) and k not in rec.raised:
+        rec.raised.add(k)
+        rec.n_raised += 1
+        raise (HardStop if inp.get("raise_kind") == "BaseException" else Boom)("scheduler failed at call %d" % k)
+    # ---- the schedule returned last time belongs to the scheduler: the simulator must not have touched it,
+    #      and the scheduler may overwrite it now without any effect on the simulation
+    if rec.kept_schedule is not None:
+        kept, kept_copy = rec.kept_schedule
+        if not same_schedule(kept, kept_copy):
+            rec.flag("the simulator modified the schedule object returned by the scheduler")
+        if rec.mutate:
+            for key in list(kept):
+                v = kept[key]
+                if isinstance(v, list):
+                    v[:] = [1e9] * (len(v) + 2)
+                elif isinstance(v, np.ndarray):
+                    v[...] = 1e9
+            kept["mutated"] = [1e9]
+    # ---- ground truth, read directly from the simulator's objects (not through the interface)
+    truth = []
+    stations = inp["net"]["stations"]
+    for idx, evse in enumerate(sim.network._EVSEs.values()):
+        ev = evse.ev
+        if ev is not None:
+            rd = ev.requested_energy - ev.energy_delivered
+            rec.min_margin = min(rec.min_margin, abs(rd - 1e-3))
+            truth.append(dict(idx=idx, sid=nm.sess_num(ev.session_id), energy=float(ev.energy_delivered),
+                              rate=float(ev.current_charging_rate), arrival=int(ev.arrival), active=bool(rd > 1e-3),
+                              rd=float(rd)))
+    # ---- what the interface shows
+    info = iface.infrastructure_info()
+    cons = iface.get_constraints()
+    names = list(info.station_ids)
+    with warnings.catch_warnings():
+        warnings.simplefilter("ignore")
+        evs_copy = iface.active_evs          # deprecated accessor
+    view = dict(
+        t=int(iface.current_time), dt=iface.current_datetime, n_hist=len(sim.event_history),
+        sessions=sessions_digest(active_sessions, nm),
+        last_pilots=[(nm.sess_num(a), float(b)) for a, b in iface.last_applied_pilot_signals.items()],
+        last_rates=[(nm.sess_num(a), float(b)) for a, b in iface.last_actual_charging_rate.items()],
+        peak=float(iface.get_prev_peak()),
+        infra=infra_digest(info, nm),
+        constraints=dict(cmat=[[float(y) for y in row] for row in cons.constraint_matrix],
+                         limits=[float(x) for x in cons.magnitudes], cids=[nm.cid_num(x) for x in cons.constraint_index],
+                         ids=[nm.st_num(x) for x in cons.evse_index]),
+        per_station=[(iface.allowable_pilot_signals(n), float(iface.max_pilot_signal(n)), float(iface.min_pilot_signal(n)),
+                      float(iface.evse_voltage(n)), float(iface.evse_phase(n))) for n in names],
+        amp_periods=[float(iface.remaining_amp_periods(s)) for s in active_sessions],
+        evs_accessor=[(nm.sess_num(e.session_id), float(e.energy_delivered), float(e.current_charging_rate)) for e in evs_copy],
+        truth=truth,
+        truth_pilots=[float(sim.pilot_signals[i, sim._iteration - 1]) if sim._iteration >= 1 else 0.0
+                      for i in range(len(stations))],
+        truth_peak=float(sim.peak), period=iface.period, max_recompute=iface.max_recompute_time,
+        n_constraints_state=len(rec.constraints), expected_constraints=copy.deepcopy(rec.constraints))
+    # ---- objects handed out earlier and still held by the scheduler must not change as the simulation goes on
+    if not rec.mutate and len(rec.held) < 4:
+        rec.held.append(("infrastructure_info() of call %d" % k, info, lambda o: infra_digest(o, nm), infra_digest(info, nm)))
+        held_s = list(active_sessions)
+        rec.held.append(("active_sessions() of call %d" % k, held_s, lambda o: sessions_digest(o, nm), sessions_digest(held_s, nm)))
+    # ---- a second, different simulation run to completion inside this call (twin family)
+    if rec.nested is not None and not rec.nested_done and k >= inp.get("twin_at", 0):
+        rec.nested_done = True
+        rec.nested()
+    # ---- the schedule
+    kind = inp["sched"]["kind"]
+    if kind == "empty":
+        sched = {}
+    elif kind == "zero":
+        L = srng.choice([1, 2, 5])
+        sched = {s.station_id: [0] * L for s in active_sessions}
+    elif kind == "scripted":
+        L = srng.choice([1, 1, 2, 3, 6])
+        chosen = [st for st in stations if srng.random() < 0.7]
+        srng.shuffle(chosen)                                   # entry order of the mapping != station order
+        sched = {}
+        for st in chosen:
+            row = [typed(srng, random_pilot(srng, st["kind"]), inp.get("np_types")) for _ in range(L)]
+            c = srng.randrange(4) if inp.get("np_types") else 0
+            sched[nm.station(st["num"])] = np.array([float(x) for x in row]) if c == 1 else (tuple(row) if c == 2 else row)
+    else:
+        sched = alg.inner.schedule(active_sessions)
+    view["schedule"] = {nm.st_num(key): [float(x) for x in v] for key, v in sched.items()}
+    rec.calls.append(view)
+    rec.kept_schedule = (sched, copy.deepcopy(sched))
+    # ---- constraints changed in place at the end of this call (netupdate family)
+    for u in inp.get("net_updates", ()):
+        if u["at"] == k:
+            apply_net_update(sim.network, rec, u)
+    if rec.mutate:
+        mutate_everything(iface, active_sessions, info, cons)
+    return sched
+
+
+def same_schedule(a, b):
+    import numpy as np
+    if list(a.keys()) != list(b.keys()):
+        return False
+    return all(np.array_equal(np.asarray(a[key]), np.asarray(b[key])) for key in a)
+
+
+def apply_net_update(network, rec, u):
+    A = classes()
+    nm = rec.nm
+    names = [nm.station(st["num"]) for st in rec.inp["net"]["stations"]]
+    cname = nm.cid[u["num"]]
+    if u["how"] == "remove":
+        network.remove_constraint(cname)
+        rec.constraints = [c for c in rec.constraints if c["num"] != u["num"]]
+        return
+    cur = A["Current"]({names[int(i)]: v for i, v in u["coeffs"].items()})
+    new = dict(num=u["num"], coeffs={int(i): v for i, v in u["coeffs"].items()}, limit=u["limit"])
+    if u["how"] == "limit":
+        network.update_constraint(cname, cur, u["limit"])
+        rec.constraints = [c for c in rec.constraints if c["num"] != u["num"]] + [new]
+    else:
+        network.add_constraint(cur, u["limit"], name=cname)
+        rec.constraints = rec.constraints + [new]
 
 
 def mutate_everything(iface, active_sessions, info, cons):
@@ -399,65 +651,167 @@ def mutate_everything(iface, active_sessions, info, cons):
     d.clear()
     d2 = iface.last_actual_charging_rate
     d2["mutated"] = 1e9
+    for n in list(iface._simulator.network.station_ids)[:2]:
+        ap = iface.allowable_pilot_signals(n)[1]
+        ap[:] = [1e9]
 
 
 def normalise(inp):
     """undo what a JSON round trip does to an input (int dict keys become strings)"""
     for c in inp["net"]["constraints"]:
         c["coeffs"] = {int(k): v for k, v in c["coeffs"].items()}
+    for u in inp.get("net_updates", ()):
+        if "coeffs" in u:
+            u["coeffs"] = {int(k): v for k, v in u["coeffs"].items()}
+    for key in ("prelude", "twin"):
+        if key in inp:
+            normalise(inp[key])
     return inp
 
 
-def run_impl(inp, mutate=False):
-    """run the real Simulator; returns the recorded trace (json-able)"""
-    inp = normalise(inp)
-    rec = Recorder()
-    err = None
-    err_stage = None
-    try:
-        sim = build(inp, rec, mutate=mutate)
-    except Exception as e:      # noqa  (construction errors are part of the observable behaviour)
-        return dict(error=type(e).__name__, stage="build", hist=[], occ=[], iteration=0, qempty=False, calls=[],
-                    rates=[], energy=[], peak=0.0, final_occ=[], min_margin=1.0)
-    try:
-        sim.run()
-    except Exception as e:      # noqa
-        err = type(e).__name__
-        err_stage = "run"
+def make_network(inp, nm):
+    A = classes()
+    net = A["RecNet"]()
+    for st in inp["net"]["stations"]:
+        net.register_evse(make_evse(st, nm.station(st["num"])), st["voltage"], st["phase"])
+    names = [nm.station(st["num"]) for st in inp["net"]["stations"]]
+    for c in inp["net"]["constraints"]:
+        net.add_constraint(A["Current"]({names[i]: v for i, v in c["coeffs"].items()}), c["limit"], name=nm.cid[c["num"]])
+    return net
+
+
+def make_events(inp, nm):
+    import numpy as np
+    A = classes()
+    npt = inp.get("np_types")
+    events = []
+    for j, s in enumerate(inp["sessions"]):
+        arr, dep, req = s["arrival"], s["departure"], s["req"]
+        if npt and j % 3 == 0:
+            arr, dep = np.int64(arr), np.int64(dep)
+        if npt and j % 3 == 1:
+            req = np.float64(req) if req != int(req) else int(req)
+        ev = A["EV"](arr, dep, req, nm.station(s["station"]), nm.sess[s["sid"]],
+                     A["Battery"](s["cap"], s["init"], s["maxp"]), estimated_departure=s["est"])
+        events.append(A["PluginEvent"](arr, ev))
+    for j, t in enumerate(inp["recomputes"]):
+        events.append(A["RecomputeEvent"](np.int64(t) if npt and j % 2 else t))
+    return events
+
+
+def build(inp, rec, shared=None):
+    """network / queue / scheduler / Simulator for one input; `shared` = (net, queue, alg) to be reused"""
+    A = classes()
+    nm = rec.nm
+    events = make_events(inp, nm)
+    given = list(events)
+    if shared is None:
+        net = make_network(inp, nm)
+        eq = A["EventQueue"](events)
+        alg = A["RecAlgo"]()
+    else:
+        net, eq, alg = shared
+        eq.add_events(events)
+    if len(events) != len(given) or any(a is not b for a, b in zip(events, given)):
+        rec.flag("EventQueue modified the list of events it was given")
+    events.clear()                                 # the caller's list is the caller's
+    net.rec = rec
+    alg.configure(rec)
+    sim = A["acnsim"].Simulator(net, alg, eq, START, period=inp["period"], verbose=False)
+    rec.sim = sim
+    return sim, (net, eq, alg)
+
+
+def trace_of(sim, rec, err, stage):
+    nm = rec.nm
     hist = []
     for e in sim.event_history:
-        sidn = getattr(getattr(e, "ev", None), "session_id", None)
-        hist.append((e.event_type, int(e.timestamp), sidn))
-    # period in which each event was processed: from len(event_history) seen at each post_charging_update
-    tags = []
-    prev = 0
-    for (t, _, n) in rec.occ:
+        ev = getattr(e, "ev", None)
+        hist.append((e.event_type, int(e.timestamp), nm.sess_num(ev.session_id) if ev is not None else -1,
+                     nm.st_num(ev.station_id) if ev is not None else -1))
+    tags, prev = [], 0
+    for (t, _, n) in rec.occ:        # period in which each event was processed
         tags += [t] * (n - prev)
         prev = n
     tags += [int(sim._iteration)] * (len(hist) - prev)      # the aborted period
     n_done = len(rec.occ)
     rates = [[float(x) for x in sim.charging_rates[:, t]] for t in range(min(n_done, sim.charging_rates.shape[1]))]
-    energy = [(sidn, float(ev.energy_delivered)) for sidn, ev in sim.ev_history.items()]
-    return dict(error=err, stage=err_stage,
-                hist=[(tags[i],) + hist[i] for i in range(len(hist))],
+    energy = [(nm.sess_num(k), float(ev.energy_delivered)) for k, ev in sim.ev_history.items()]
+    for what, obj, dig, before in rec.held:
+        if dig(obj) != before:
+            rec.flag("%s changed after it was handed out" % what)
+    return dict(error=err, stage=stage, hist=[(tags[i],) + hist[i] for i in range(len(hist))],
                 occ=[(t, o) for (t, o, _) in rec.occ], iteration=int(sim._iteration), qempty=bool(sim.event_queue.empty()),
                 calls=rec.calls, rates=rates, energy=energy, peak=float(sim.peak),
-                final_occ=[evse.ev.session_id if evse.ev is not None else None for evse in sim.network._EVSEs.values()],
-                min_margin=rec.min_margin,
+                final_occ=[nm.sess_num(e.ev.session_id) if e.ev is not None else -1 for e in sim.network._EVSEs.values()],
+                min_margin=rec.min_margin, flags=list(rec.flags), n_raised=rec.n_raised,
                 pilots_width=int(sim.pilot_signals.shape[1]))
+
+
+def empty_trace(err):
+    return dict(error=err, stage="build", hist=[], occ=[], iteration=0, qempty=False, calls=[], rates=[], energy=[],
+                peak=0.0, final_occ=[], min_margin=1.0, flags=[], n_raised=0)
+
+
+def run_sim(sim, rec):
+    """run() until it returns; in the resume family the scripted failures are caught and run() is called again"""
+    err = None
+    for _ in range(len(rec.inp.get("raise_at", ())) + 1):
+        try:
+            sim.run()
+            err = None
+            break
+        except (Boom, HardStop):
+            err = "unresumed"
+            continue
+        except Exception as e:      # noqa
+            err = type(e).__name__
+            break
+    return err
+
+
+def run_impl(inp, mutate=False):
+    """run the real Simulator on one input (with its family's surroundings); returns the recorded trace.
+    For the twin family the twin's trace is returned under key "twin_trace"."""
+    inp = normalise(inp)
+    nm = Names(inp)
+    rec = Recorder(inp, nm, mutate)
+    shared = None
+    try:
+        if inp.get("family") == "reuse":
+            pre = inp["prelude"]
+            prec = Recorder(pre, Names(pre), mutate)
+            psim, shared = build(pre, prec)
+            perr = run_sim(psim, prec)
+            if perr is not None or not psim.event_queue.empty():
+                shared = None                       # the prelude did not complete: nothing to reuse
+        sim, shared = build(inp, rec, shared)
+    except Exception as e:      # noqa  (construction errors are part of the observable behaviour)
+        return empty_trace(type(e).__name__)
+    twin_box = {}
+    if inp.get("family") == "twin":
+        tw = inp["twin"]
+        trec = Recorder(tw, Names(tw), mutate)
+        try:
+            tsim, _ = build(tw, trec)               # both simulators are alive before either runs
+
+            def nested():
+                twin_box["trace"] = trace_of(tsim, trec, run_sim(tsim, trec), "run")
+            rec.nested = nested
+        except Exception as e:      # noqa
+            twin_box["trace"] = empty_trace(type(e).__name__)
+    err = run_sim(sim, rec)
+    out = trace_of(sim, rec, err, "run" if err else None)
+    if inp.get("family") == "twin":
+        if "trace" not in twin_box:                 # the main scheduler was never invoked
+            rec.nested()
+        out["twin_trace"] = twin_box["trace"]
+    return out
 
 
 # ---------------------------------------------------------------------------------------------
 # Coq terms
 # ---------------------------------------------------------------------------------------------
-def sess_num(name):
-    return -1 if name is None else int(name.split("-")[1])
-
-
-def st_num(name):
-    return int(name.split("-")[1])
-
-
 def kind_coq(kind):
     if kind[0] == "C":
         return "(Continuous %s %s)" % (q(kind[1]), q(kind[2]))
@@ -473,36 +827,51 @@ def session_coq(s):
         q(s["req"]), q(s["cap"]), q(s["init"]), q(s["maxp"]))
 
 
+def cmat_of(constraints, n):
+    return [[float(c["coeffs"].get(j, 0)) for j in range(n)] for c in constraints]
+
+
 def expected_cmat(net):
-    n = len(net["stations"])
-    return [[float(c["coeffs"].get(j, 0)) for j in range(n)] for c in net["constraints"]]
+    return cmat_of(net["constraints"], len(net["stations"]))
 
 
-def net_coq(inp):
+def cons_coq(constraints, n):
+    return "(%s, %s, %s)" % (coq_list([coq_list([q(x) for x in row]) for row in cmat_of(constraints, n)]),
+                             coq_list([q(c["limit"]) for c in constraints]), coq_list([z(c["num"]) for c in constraints]))
+
+
+def net_coq(inp, impl):
     net = inp["net"]
+    n = len(net["stations"])
     sts = coq_list(["(mkStation %s %s %s %s)" % (z(st["num"]), kind_coq(st["kind"]), q(st["voltage"]), q(st["phase"]))
                     for st in net["stations"]])
+    # in-place changes: made at the end of the call in period t, visible to every later invocation
+    ups = []
+    calls = impl["calls"]
+    for k, c in enumerate(calls):
+        if k + 1 < len(calls) and calls[k + 1]["expected_constraints"] != c["expected_constraints"]:
+            ups.append("(%s, %s)" % (z(c["t"]), cons_coq(calls[k + 1]["expected_constraints"], n)))
     cmat = coq_list([coq_list([q(x) for x in row]) for row in expected_cmat(net)])
-    return "(mkNet %s %s %s %s %s)" % (sts, q(inp["period"]), cmat,
-                                       coq_list([q(c["limit"]) for c in net["constraints"]]),
-                                       coq_list([z(c["num"]) for c in net["constraints"]]))
+    return "(mkNet %s %s %s %s %s %s)" % (sts, q(inp["period"]), cmat,
+                                          coq_list([q(c["limit"]) for c in net["constraints"]]),
+                                          coq_list([z(c["num"]) for c in net["constraints"]]), coq_list(ups))
 
 
 def schedule_coq(sched):
-    return coq_list(["(%s, %s)" % (z(st_num(k)), coq_list([q(x) for x in v])) for k, v in sched.items()])
+    return coq_list(["(%s, %s)" % (z(k), coq_list([q(x) for x in v])) for k, v in sched.items()])
 
 
 def input_coq(inp, impl):
     evs = ["(EPlugin %s %s)" % (z(s["arrival"]), session_coq(s)) for s in inp["sessions"]]
     evs += ["(ERecompute %s)" % z(t) for t in inp["recomputes"]]
     scheds = coq_list(["(%s, %s)" % (z(c["t"]), schedule_coq(c["schedule"])) for c in impl["calls"]])
-    return "(mkInput %s %s %s %s)" % (net_coq(inp), coq_opt(inp["max_recompute"], z), coq_list(evs), scheds)
+    return "(mkInput %s %s %s %s)" % (net_coq(inp, impl), coq_opt(inp["max_recompute"], z), coq_list(evs), scheds)
 
 
 def canon_hist(hist):
     """(period, type, ts, session) -> (period, code, ts, session number), maximal runs of equal
     (period, code, ts) sorted by session number (heap order inside such a run is C11's business)"""
-    rows = [(t, TYPE_CODE.get(ty, -1), ts, sess_num(s)) for (t, ty, ts, s) in hist]
+    rows = [(h[0], TYPE_CODE.get(h[1], -1), h[2], h[3]) for h in hist]
     out = []
     for _, grp in itertools.groupby(rows, key=lambda r: r[:3]):
         out += sorted(grp, key=lambda r: r[3])
@@ -514,7 +883,7 @@ def hist_coq(hist):
 
 
 def occ_coq(occ):
-    return coq_list(["(%s, %s)" % (z(t), coq_list([z(sess_num(s)) for s in row])) for (t, row) in occ])
+    return coq_list(["(%s, %s)" % (z(t), coq_list([z(s) for s in row])) for (t, row) in occ])
 
 
 # ---------------------------------------------------------------------------------------------
@@ -523,7 +892,7 @@ def occ_coq(occ):
 def is_valid_input(inp):
     nums = {st["num"] for st in inp["net"]["stations"]}
     ss = inp["sessions"]
-    if len({s["sid"] for s in ss}) != len(ss):
+    if len({(s["sid"], s["station"]) for s in ss}) != len(ss):      # identity = (session id, station)
         return False
     for s in ss:
         if s["station"] not in nums or not (0 <= s["arrival"] < s["departure"]):
@@ -536,42 +905,46 @@ def is_valid_input(inp):
 
 def monitor_c01(inp, impl):
     """None, or a description of which part of C01 the recorded run violates.  Only for valid inputs."""
+    if impl.get("flags"):
+        return impl["flags"][0]
     if not is_valid_input(inp):
         return None
     if impl["error"] is not None:
         if impl["error"] in NUMERIC_ERRORS or (impl["error"] == "ValueError" and any(
                 s["est"] is not None and s["est"] <= s["arrival"] for s in inp["sessions"])):
             return None                        # the scheduler's schedule was rejected: C04/C13, not C01
+        if impl["error"] == "unresumed":
+            return "run() could not be resumed after the scheduler had raised"
         return "run() raised %s on a valid session set" % impl["error"]
     if not impl["qempty"]:
         return "event queue not empty after run()"
-    if any(o is not None for o in impl["final_occ"]):
+    if any(o != -1 for o in impl["final_occ"]):
         return "a station is still occupied after run()"
     hist = impl["hist"]
     for s in inp["sessions"]:
-        name = sess_name(s["sid"])
-        plug = [h for h in hist if h[1] == "Plugin" and h[3] == name]
-        unpl = [h for h in hist if h[1] == "Unplug" and h[3] == name]
+        plug = [h for h in hist if h[1] == "Plugin" and h[3] == s["sid"] and h[4] == s["station"]]
+        unpl = [h for h in hist if h[1] == "Unplug" and h[3] == s["sid"] and h[4] == s["station"]]
         if len(plug) != 1 or plug[0][0] != s["arrival"]:
-            return "session %s plugged %d times / in period %s (arrival %d)" % (name, len(plug), [h[0] for h in plug], s["arrival"])
+            return "session %s@%s plugged %d times / in period %s (arrival %d)" % (s["sid"], s["station"], len(plug), [h[0] for h in plug], s["arrival"])
         if len(unpl) != 1 or unpl[0][0] != s["departure"]:
-            return "session %s unplugged %d times / in period %s (departure %d)" % (name, len(unpl), [h[0] for h in unpl], s["departure"])
+            return "session %s@%s unplugged %d times / in period %s (departure %d)" % (s["sid"], s["station"], len(unpl), [h[0] for h in unpl], s["departure"])
     keys = [(h[2], EXPECTED_RANK[h[1]]) for h in hist]
     if keys != sorted(keys):
         return "event_history is not ordered by (time, departures < arrivals < recomputes)"
     if any(h[0] != h[2] for h in hist):
         return "an event was processed in a period other than its timestamp"
-    names = [st_name(st["num"]) for st in inp["net"]["stations"]]
+    nums = [st["num"] for st in inp["net"]["stations"]]
     periods = [t for (t, _) in impl["occ"]]
     if periods != list(range(impl["iteration"])):
         return "charging step did not run exactly once per period"
     for (t, row) in impl["occ"]:
-        for j, nm in enumerate(names):
-            want = [sess_name(s["sid"]) for s in inp["sessions"]
-                    if st_name(s["station"]) == nm and s["arrival"] <= t < s["departure"]]
-            want = want[0] if want else None
+        for j, num in enumerate(nums):
+            want = [s["sid"] for s in inp["sessions"] if s["station"] == num and s["arrival"] <= t < s["departure"]]
+            want = want[0] if want else -1
             if row[j] != want:
-                return "period %d station %s: connected %s, expected %s" % (t, nm, row[j], want)
+                return "period %d station %s: connected %s, expected %s" % (t, num, row[j], want)
+            if want == -1 and t < len(impl["rates"]) and impl["rates"][t][j] != 0:
+                return "period %d station %s: current %r flows although no EV is connected" % (t, num, impl["rates"][t][j])
     last = max([h[2] for h in hist], default=-1)
     if impl["iteration"] != last + 1:
         return "final iteration %d, last event at %d" % (impl["iteration"], last)
